@@ -157,14 +157,54 @@ Definition ok_record_time (inits : list (nat * list (N * N))) (cbs : list callba
   end.
 
 (* ------------------------------------------------------------------ the tie (props/c18.py) *)
-Definition scase := (list N * list task * list (list N * option (list nat) * list callback * list line))%type.
+(* ------------------------------------------------------------------ scripts that define only some callbacks
+   A binding returns -1 for a callback the script does not define (python_uftrace_entry: `if (!pFuncEntry) return -1`,
+   luajit the same); run_script_for_rstack ignores that status and command_script's loop goes on.  The driver ATTEMPTS
+   the callbacks of script_run; the defined ones are delivered.  [stop = true] is the driver that ends the loop at the
+   first absent callback (refuted). *)
+Record cbdefs := mkdefs { d_begin : bool; d_entry : bool; d_exit : bool; d_end : bool }.
+Definition d_all := mkdefs true true true true.
+Definition cb_defined (d : cbdefs) (c : callback) : bool :=
+  match c with
+  | CBegin => d_begin d | CEnd => d_end d
+  | CEntry _ _ _ _ _ => d_entry d | CExit _ _ _ _ _ _ => d_exit d
+  | CBad => false
+  end.
+Fixpoint deliver (stop : bool) (d : cbdefs) (attempts : list callback) : list callback :=
+  match attempts with
+  | [] => []
+  | c :: tl => if cb_defined d c then c :: deliver stop d tl else if stop then [] else deliver stop d tl
+  end.
+Definition script_run_defs_gen (stop : bool) (d : cbdefs) (forks funcs : list N) (sel : option (list nat)) (tasks : list task)
+  : list callback :=
+  (if d_begin d then [CBegin] else []) ++
+  deliver stop d (script_loop forks funcs tasks (merge (mask_queues sel tasks 0)) (init_g sel tasks)) ++
+  (if d_end d then [CEnd] else []).
+Definition script_run_defs := script_run_defs_gen false.
+
+(* observed callbacks of a script with the definitions d against observed replay lines *)
+Definition strip_d (d : cbdefs) (cs : list callback) : option (list callback) :=
+  match (if d_begin d then match cs with CBegin :: r => Some r | _ => None end else Some cs) with
+  | None => None
+  | Some r => if d_end d then match rev r with CEnd :: m => Some (rev m) | _ => None end else Some r
+  end.
+Definition ev_defined (d : cbdefs) (e : event) : bool := if e_open e then d_entry d else d_exit d.
+Definition ok_script_d (d : cbdefs) (funcs : list N) (cbs : list callback) (replay_lines : list line) : bool :=
+  match strip_d d cbs with
+  | Some inner =>
+      forallb inner_ok inner &&
+      cbs_vs_events inner (filter (fun e => match_funcs funcs (e_name e) && ev_defined d e) (events_of replay_lines))
+  | None => false
+  end.
+
+Definition scase := (list N * list task * list (list N * option (list nat) * cbdefs * list callback * list line))%type.
 
 Definition agree_scase (c : scase) : list bool :=
   let '(forks, tasks, vs) := c in
-  map (fun x : list N * option (list nat) * list callback * list line =>
-         let '(funcs, sel, cbs, _) := x in
-         list_eqb cb_eqb (script_run forks funcs sel tasks) cbs) vs.
+  map (fun x : list N * option (list nat) * cbdefs * list callback * list line =>
+         let '(funcs, sel, d, cbs, _) := x in
+         list_eqb cb_eqb (script_run_defs d forks funcs sel tasks) cbs) vs.
 Definition check_scase (c : scase) : list bool :=
   let '(forks, tasks, vs) := c in
-  map (fun x : list N * option (list nat) * list callback * list line =>
-         let '(funcs, sel, cbs, lines) := x in ok_script funcs cbs lines) vs.
+  map (fun x : list N * option (list nat) * cbdefs * list callback * list line =>
+         let '(funcs, sel, d, cbs, lines) := x in ok_script_d d funcs cbs lines) vs.
